@@ -133,9 +133,11 @@ pub fn run(
                     }
                 }
             }
-            if let Some((ref best_path, _)) = best_candidate {
-                accepted.push(best_path.clone());
-            }
+        }
+
+        // the best candidate over all spur indices of this turn is the next accepted path
+        if let Some((best_path, _)) = best_candidate {
+            accepted.push(best_path);
         }
 
         // a turn that accepted nothing leaves every later turn in the same state
@@ -144,9 +146,10 @@ pub fn run(
         }
     }
 
+    let routes = accepted.into_iter().take(query.k).collect_vec();
     let result = SearchAlgorithmResult {
         trees: shortest.trees,
-        routes: accepted,
+        routes,
         iterations,
     };
     Ok(result)
